@@ -218,6 +218,7 @@ structure SProc where
   start : Int
   stop : Option Int
   content : Nat
+  key : Option Str     -- folded name of an Onset process, `none` for a Duration process
 deriving Repr, DecidableEq, Inhabited
 
 def markerKey (fold : Str → Str) : Item → Option Str
@@ -236,8 +237,8 @@ def firstAtOrAfter (ts : List Int) (x : Int) : Option Int := ts.find? (fun t => 
 /-- processes of a time-ordered history `(time, temporal group)`; `ts` are the time points -/
 def specProcs (fold : Str → Str) (ts : List Int) : List (Int × Item) → List SProc
   | [] => []
-  | (t, .onset name c) :: rest => ⟨t, nextTime fold (fold name) rest, c⟩ :: specProcs fold ts rest
-  | (t, .duration len c) :: rest => ⟨t, firstAtOrAfter ts (t + len), c⟩ :: specProcs fold ts rest
+  | (t, .onset name c) :: rest => ⟨t, nextTime fold (fold name) rest, c, some (fold name)⟩ :: specProcs fold ts rest
+  | (t, .duration len c) :: rest => ⟨t, firstAtOrAfter ts (t + len), c, none⟩ :: specProcs fold ts rest
   | _ :: rest => specProcs fold ts rest
 
 /-- `τ < e` with `none` = +∞ -/
@@ -252,6 +253,10 @@ def specContext (ps : List SProc) (τ : Int) : List Nat :=
 /-- the other reading for later rows of a merged time point: started earlier *or at* this time point -/
 def specContextIncl (ps : List SProc) (τ : Int) : List Nat :=
   (ps.filter fun p => decide (p.start ≤ τ) && ltInf τ p.stop).map (·.content)
+
+/-- folded names of the Onset processes ongoing *after* time `τ`: started at or before `τ`, not ended by then -/
+def ongoingKeys (ps : List SProc) (τ : Int) : List Str :=
+  (ps.filter fun p => decide (p.start ≤ τ) && ltInf τ p.stop).filterMap (·.key)
 
 def specStarts (ps : List SProc) (τ : Int) : List Nat :=
   (ps.filter fun p => p.start == τ).map (·.content)
